@@ -25,7 +25,9 @@ RULE = (
     "sequences; since the library awaits nothing but user awaitables, gate order is the complete set of asyncio interleavings of a "
     "configuration; threads: the same at gate level), exhaustively for the quick configurations and up to a cap for larger ones; "
     "a stress tier runs free threads with switch interval 1e-6 and seeded sleep(0) injection on every line of the checker module "
-    "(sys.monitoring). Oracle: the verdict of every call under every schedule equals its sequential verdict. Non-trivial = schedule "
+    "(sys.monitoring). Histories: a context copied during a call and used by a later thread / task after the caller is gone (recycled "
+    "thread identifiers and task ids are provoked by repetition and counted), callbacks scheduled from a sync method run as an "
+    "event-loop callback. Oracle: the verdict of every call under every schedule equals its sequential verdict. Non-trivial = schedule "
     "in which two calls overlapped inside the library's bookkeeping window; distinct = (configuration, mode, release sequence)."
 )
 ASSUMPTIONS = ["gate granularity: preemption between library statements is sampled by the stress tier, not enumerated"]
@@ -133,6 +135,10 @@ class K(icontract.DBC):
         GATES.tgate(tag, "body")
         return tag
 
+    def repair(self, tag):
+        self.ok = True
+        return tag
+
     def tslow(self, tag):
         self.ok = False
         GATES.tgate(tag, "body")
@@ -142,6 +148,14 @@ class K(icontract.DBC):
     def tcheck(self, tag):
         GATES.tgate(tag, "body")
         return tag
+
+
+class KW(K):
+    """Starts the other calls of the configuration from inside its constructor (``self.task = loop.create_task(...)``)."""
+
+    def __init__(self, name, tag):
+        super().__init__(name)
+        GATES.spawn(tag)
 '''
 
 
@@ -239,6 +253,11 @@ def async_configs() -> List[Dict[str, Any]]:
          "calls": [("a", "o1.aspawn", (), "ok"), ("b", "o2.abreak", (), "inv:o2")]},
         {"name": "spawned-inside-method-body-to-thread", "spawned_by": "a",
          "calls": [("a", "o1.aspawn", (), "ok|inv:o1"), ("b", "thread:o1.tbreak", (), "inv:o1")]},
+        # ... from inside a SYNC method / a constructor running in a task (self.worker = loop.create_task(...))
+        {"name": "spawned-inside-sync-method-in-task", "spawned_by": "a",
+         "calls": [("a", "sync:o1.tspawn", (), "ok"), ("b", "sync:o1.tbreak", (), "inv:o1"), ("c", "o1.abreak", (), "inv:o1")]},
+        {"name": "spawned-inside-constructor-in-task", "spawned_by": "a",
+         "calls": [("a", "ctor:o3", (), "ok"), ("b", "sync:o3.tbreak", (), "inv:o3"), ("c", "o3.abreak", (), "inv:o3")]},
         {"name": "spawned-inside-function-body-late-invalid", "spawned_by": "a",
          "calls": [("a", "afan", (1,), "ok"), ("b", "afan", (-1,), "pre:b")]},
         {"name": "spawned-inside-function-body-fan-out", "spawned_by": "a",
@@ -269,6 +288,14 @@ def run_async_schedule(mod: Any, gates: Gates, config: Dict[str, Any], mode: str
             if target.startswith("thread:"):
                 oname, mname = target[len("thread:"):].split(".")
                 res = await asyncio.to_thread(getattr(objs[oname], mname), *args, tag)
+            elif target.startswith("sync:"):
+                # a synchronous contracted call made by this task
+                oname, mname = target[len("sync:"):].split(".")
+                res = getattr(objs[oname], mname)(*args, tag)
+            elif target.startswith("ctor:"):
+                oname = target[len("ctor:"):]
+                objs[oname] = mod.KW(oname, tag)
+                res = tag
             elif "." in target:
                 oname, mname = target.split(".")
                 res = await getattr(objs[oname], mname)(*args, tag)
@@ -566,6 +593,126 @@ def explore_threads(w, mod: Any, gates: Gates, cap: int) -> None:
 
 
 # ---------------------------------------------------------------------------------------------------------------------
+# histories: contexts copied during a call and used after that call (and its thread / task) is gone; loop callbacks
+# ---------------------------------------------------------------------------------------------------------------------
+
+def explore_histories(w, mod: Any, gates: Gates, tries: int) -> None:
+    """Deterministic histories in which the identity of a finished thread / task may be recycled, or no task is involved."""
+    import gc  # pylint: disable=import-outside-toplevel
+
+    def verdict(fn, *args) -> str:
+        try:
+            return outcome_of(None, fn(*args))
+        except BaseException as err:  # pylint: disable=broad-except
+            return outcome_of(err, None)
+
+    def judge(name: str, got: str, want: str, detail: Dict[str, Any]) -> None:
+        w.count("calls_judged")
+        w.count("history_calls_judged")
+        if got != want:
+            w.violation("C12/stale-inherited-mark-honoured", "history {}: the call gave {!r}, sequentially it gives {!r} ({})".format(name, got, want, detail),
+                        {"engine": "history", "history": name}, detail)
+
+    gates.mode = "free"
+
+    # (1) a context copied inside a method in flight in thread T1 is used by a NEW thread after T1 has exited (thread
+    #     identifiers are recycled by the operating system)
+    def history_thread() -> None:
+        o = contextvars.Context().run(mod.K, "o1")
+        copies = []
+        gates.spawner = lambda tag: copies.append(contextvars.copy_context())
+        t1 = threading.Thread(target=contextvars.Context().run, args=(o.tspawn, "a"))
+        t1.start()
+        t1.join()
+        gates.spawner = None
+        ident1 = t1.ident
+        del t1
+        reused = 0
+        for _ in range(tries):
+            box = {}
+            o.ok = True
+
+            def work() -> None:
+                box["ident"] = threading.get_ident()
+                box["got"] = verdict(o.tbreak, "b")
+
+            t2 = threading.Thread(target=copies[0].run, args=(work,))
+            t2.start()
+            t2.join()
+            if box.get("ident") == ident1:
+                reused += 1
+            judge("context-copied-in-a-call-used-by-a-later-thread", box.get("got", "<no result>"), "inv:o1", {"thread_ident_recycled": box.get("ident") == ident1})
+        w.count("histories_with_recycled_thread_ident", reused)
+
+    # (2) ... by a NEW task after the parent task has been collected (id() of task objects is recycled)
+    def history_task() -> None:
+        async def main() -> None:
+            loop = asyncio.get_running_loop()
+            o = contextvars.Context().run(mod.K, "o1")
+            copies = []
+            gates.spawner = lambda tag: copies.append(contextvars.copy_context())
+            parent = loop.create_task(o.aspawn("a"))
+            await parent
+            gates.spawner = None
+            pid = id(parent)
+            del parent
+            gc.collect()
+            reused = 0
+            for _ in range(tries):
+                o.ok = True
+                box = {}
+
+                async def child() -> None:
+                    try:
+                        box["got"] = outcome_of(None, await o.abreak("b"))
+                    except BaseException as err:  # pylint: disable=broad-except
+                        box["got"] = outcome_of(err, None)
+
+                task = loop.create_task(child(), context=copies[0].copy())
+                hit = id(task) == pid
+                await task
+                del task
+                if hit:
+                    reused += 1
+                judge("context-copied-in-a-call-used-by-a-later-task", box.get("got", "<no result>"), "inv:o1", {"task_id_recycled": hit})
+            w.count("histories_with_recycled_task_id", reused)
+
+        contextvars.Context().run(asyncio.run, main())
+
+    # (3) event-loop callbacks (no task at all): a sync method run as a callback schedules another callback from its body
+    def history_callbacks() -> None:
+        async def main() -> None:
+            loop = asyncio.get_running_loop()
+            for starter_in_task in (False, True):
+                o = contextvars.Context().run(mod.K, "o1")
+                box = {}
+                done = loop.create_future()
+
+                def later() -> None:
+                    box["got"] = verdict(o.tbreak, "b")
+                    done.set_result(None)
+
+                gates.spawner = lambda tag: loop.call_soon(later)
+                if starter_in_task:
+                    o.tspawn("a")
+                else:
+                    loop.call_soon(o.tspawn, "a")
+                await done
+                gates.spawner = None
+                judge("callback-scheduled-inside-a-sync-method-run-{}".format("in-a-task" if starter_in_task else "as-a-callback"),
+                      box.get("got", "<no result>"), "inv:o1", {})
+
+        contextvars.Context().run(asyncio.run, main())
+
+    for hist in (history_thread, history_task, history_callbacks):
+        try:
+            hist()
+        finally:
+            gates.spawner = None
+    w.case(("histories", w.shard))
+
+
+# ---------------------------------------------------------------------------------------------------------------------
 # stress: free threads, tiny switch interval, sleep(0) injected on every line of the checker module
 # ---------------------------------------------------------------------------------------------------------------------
 
@@ -689,6 +836,8 @@ def run(w) -> None:
             explore_async(w, mod, gates, cap)
         if (w.shard == 1 or w.nshards == 1) and only in (None, "threads"):
             explore_threads(w, mod, gates, 400 if w.tier == "thorough" else 80)
+        if (w.shard == 2 % w.nshards) and only in (None, "histories"):
+            explore_histories(w, mod, gates, 400 if w.tier == "thorough" else 60)
         if (w.shard >= 2 or w.nshards == 1) and only in (None, "stress"):
             stress(w, mod, gates, rounds=(40 if w.tier == "thorough" else 5), n_threads=8)
     finally:
@@ -717,6 +866,8 @@ def replay(case, w) -> None:
             for tag, _t, _a, exp in config["calls"]:
                 if results.get(tag) not in exp.split("|"):
                     w.violation(classify(case["mode"], config), "replayed schedule {}: call {} gave {!r} instead of {!r}".format(seq, tag, results.get(tag), exp), case)
+        elif case.get("engine") == "history":
+            explore_histories(w, mod, gates, 200)
         else:
             stress(w, mod, gates, rounds=6, n_threads=8)
     finally:
